@@ -156,10 +156,12 @@ def tree(n):
     if name in INVOC:
         name = 'ImplicitInvocationNode'
     d = [name]
+    seen = {}
     for k, v in sorted(vars(n).items()):
         if k in ('position', 'character_stream', 'children'):
             continue
         if isinstance(v, oal.Node):
+            seen[id(v)] = k
             d.append((k, tree(v)))
         elif isinstance(v, str) and (k in ('cardinality', 'operator') or (k == 'value' and isinstance(n, oal.BooleanNode))):
             d.append((k, v.lower()))
@@ -167,7 +169,8 @@ def tree(n):
             d.append((k, v))
     ch = getattr(n, 'children', None)
     if ch:
-        d.append(('children', [tree(c) for c in ch]))
+        # a child that is also a named field is not walked twice (exponential in the nesting depth): its place is recorded
+        d.append(('children', [('field', seen[id(c)]) if id(c) in seen else tree(c) for c in ch]))
     return d
 
 
